@@ -1,7 +1,9 @@
 //! C12 — message-type dispatch is consistent across every entry point.
 use crate::choice::{Src, splitmix};
 use crate::driver::{Ctx, Obs, Violation, viol};
-use crate::lib_api::{LibErr, MSGS, msg_ops, parse_auto, plugin_parse, plugin_publish, plugin_validate};
+use crate::lib_api::{
+    LibErr, MSGS, msg_ops, parse_auto, plugin_parse, plugin_publish, plugin_validate,
+};
 use crate::msgkit::*;
 use crate::props::c03::canonicalise;
 use serde::{Deserialize, Serialize};
@@ -21,13 +23,22 @@ pub struct DispCase {
 
 impl DispCase {
     pub fn text(&self) -> String {
-        format!("{{1:F01BANKDEFFAXXX0000000000}}{{2:I{}BANKUS33AXXXN}}{{4:\n{}-}}", self.announced, self.body)
+        format!(
+            "{{1:F01BANKDEFFAXXX0000000000}}{{2:I{}BANKUS33AXXXN}}{{4:\n{}-}}",
+            self.announced, self.body
+        )
     }
 }
 
 /// k-th deterministic valid body of a type (k = 0 is the minimal one)
 pub fn body(mt: &str, k: u64, seed: u64) -> Option<String> {
-    let data: Vec<u32> = if k == 0 { Vec::new() } else { (0..1500).map(|i| splitmix(seed ^ (k * 7919 + i)) as u32).collect() };
+    let data: Vec<u32> = if k == 0 {
+        Vec::new()
+    } else {
+        (0..1500)
+            .map(|i| splitmix(seed ^ (k * 7919 + i)) as u32)
+            .collect()
+    };
     let mut src = Src::new(&data);
     let mut m = gen_valid_msg(mt, &mut src);
     canonicalise(&mut m).ok()?;
@@ -62,7 +73,14 @@ pub fn oracle(c: &DispCase, obs: &mut Obs) -> Vec<Violation> {
             if c.body_mt == c.announced {
                 if let Err(e) = r {
                     if !e.is_panic() {
-                        out.push(viol(format!("C12|typed|MT{}|rejected", c.announced), format!("valid message rejected by its own typed parser: {}\n{}", e.text(), x)));
+                        out.push(viol(
+                            format!("C12|typed|MT{}|rejected", c.announced),
+                            format!(
+                                "valid message rejected by its own typed parser: {}\n{}",
+                                e.text(),
+                                x
+                            ),
+                        ));
                     }
                 }
             }
@@ -71,88 +89,185 @@ pub fn oracle(c: &DispCase, obs: &mut Obs) -> Vec<Violation> {
     }
     // auto-detecting entry points
     let auto = parse_auto(&x);
-    obs.sample(if supported(&c.announced) { "auto:supported" } else { "auto:unsupported" }, || json!({"announced": c.announced, "body_of": c.body_mt, "text": x}));
+    obs.sample(
+        if supported(&c.announced) {
+            "auto:supported"
+        } else {
+            "auto:unsupported"
+        },
+        || json!({"announced": c.announced, "body_of": c.body_mt, "text": x}),
+    );
     if !supported(&c.announced) {
         obs.class("auto:unsupported-code");
         match &auto {
-            Ok(a) => out.push(viol("C12|auto|unsupported|accepted", format!("type {} is not supported but was parsed as MT{}", c.announced, a.message_type))),
-            Err(LibErr::Parse(ParseError::UnsupportedMessageType { message_type })) if *message_type == c.announced => {}
+            Ok(a) => out.push(viol(
+                "C12|auto|unsupported|accepted",
+                format!(
+                    "type {} is not supported but was parsed as MT{}",
+                    c.announced, a.message_type
+                ),
+            )),
+            Err(LibErr::Parse(ParseError::UnsupportedMessageType { message_type }))
+                if *message_type == c.announced => {}
             Err(LibErr::Parse(e)) => {
                 // a malformed block 2 cannot occur here (the code is 3 digits); any other error hides the real cause
-                out.push(viol("C12|auto|unsupported|wrong-error", format!("type {} reported as {:?}", c.announced, e)));
+                out.push(viol(
+                    "C12|auto|unsupported|wrong-error",
+                    format!("type {} reported as {:?}", c.announced, e),
+                ));
             }
             Err(_) => {}
         }
         if let Ok((data, meta)) = plugin_parse(&x) {
-            out.push(viol("C12|plugin-parse|unsupported|accepted", format!("parse_mt accepted unsupported type {}: meta {} data {}", c.announced, meta, data)));
+            out.push(viol(
+                "C12|plugin-parse|unsupported|accepted",
+                format!(
+                    "parse_mt accepted unsupported type {}: meta {} data {}",
+                    c.announced, meta, data
+                ),
+            ));
         }
         return out;
     }
-    obs.class(if c.announced == c.body_mt { "auto:own-body" } else { "auto:foreign-body" });
+    obs.class(if c.announced == c.body_mt {
+        "auto:own-body"
+    } else {
+        "auto:foreign-body"
+    });
     let typed = (msg_ops(&c.announced).parse_full)(&x);
     match (&auto, &typed) {
         (Ok(a), Ok(t)) => {
             if a.message_type != c.announced {
-                out.push(viol(format!("C12|auto|MT{}|wrong-variant", c.announced), format!("announced {} parsed as variant {}", c.announced, a.message_type)));
+                out.push(viol(
+                    format!("C12|auto|MT{}|wrong-variant", c.announced),
+                    format!(
+                        "announced {} parsed as variant {}",
+                        c.announced, a.message_type
+                    ),
+                ));
             }
             let mut inner = a.json.clone();
             if let Some(o) = inner.as_object_mut() {
                 o.remove("mt_type");
             }
             if inner != t.json {
-                out.push(viol(format!("C12|auto|MT{}|differs-from-typed", c.announced), format!("parse_auto JSON differs from parse::<T> JSON:\n{}\nvs\n{}", inner, t.json)));
+                out.push(viol(
+                    format!("C12|auto|MT{}|differs-from-typed", c.announced),
+                    format!(
+                        "parse_auto JSON differs from parse::<T> JSON:\n{}\nvs\n{}",
+                        inner, t.json
+                    ),
+                ));
             }
             if a.json.get("mt_type").and_then(|v| v.as_str()) != Some(c.announced.as_str()) {
-                out.push(viol(format!("C12|auto|MT{}|wrong-mt_type-tag", c.announced), format!("serialised variant tag {:?}", a.json.get("mt_type"))));
+                out.push(viol(
+                    format!("C12|auto|MT{}|wrong-mt_type-tag", c.announced),
+                    format!("serialised variant tag {:?}", a.json.get("mt_type")),
+                ));
             }
-            if a.as_some != vec![a.message_type] || a.into_some.len() != 1 || a.into_some[0].0 != a.message_type {
-                out.push(viol(format!("C12|auto|MT{}|accessors", c.announced), format!("as_mt*: {:?}, into_mt*: {:?}", a.as_some, a.into_some.iter().map(|x| x.0).collect::<Vec<_>>())));
+            if a.as_some != vec![a.message_type]
+                || a.into_some.len() != 1
+                || a.into_some[0].0 != a.message_type
+            {
+                out.push(viol(
+                    format!("C12|auto|MT{}|accessors", c.announced),
+                    format!(
+                        "as_mt*: {:?}, into_mt*: {:?}",
+                        a.as_some,
+                        a.into_some.iter().map(|x| x.0).collect::<Vec<_>>()
+                    ),
+                ));
             } else if a.into_some[0].1 != t.json {
-                out.push(viol(format!("C12|auto|MT{}|into-differs", c.announced), "into_mt*() value differs from the typed parse".to_string()));
+                out.push(viol(
+                    format!("C12|auto|MT{}|into-differs", c.announced),
+                    "into_mt*() value differs from the typed parse".to_string(),
+                ));
             }
             if a.is_valid != t.is_valid || a.validate_errors != t.validate_errors {
-                out.push(viol(format!("C12|auto|MT{}|validate-differs", c.announced), format!("ParsedSwiftMessage::validate {:?} vs SwiftMessage::validate {:?}", a.validate_errors, t.validate_errors)));
+                out.push(viol(
+                    format!("C12|auto|MT{}|validate-differs", c.announced),
+                    format!(
+                        "ParsedSwiftMessage::validate {:?} vs SwiftMessage::validate {:?}",
+                        a.validate_errors, t.validate_errors
+                    ),
+                ));
             }
             // plugins
             match plugin_parse(&x) {
                 Ok((data, meta)) => {
                     if data != t.json {
-                        out.push(viol(format!("C12|plugin-parse|MT{}|data-differs", c.announced), "parse_mt data differs from typed JSON".to_string()));
+                        out.push(viol(
+                            format!("C12|plugin-parse|MT{}|data-differs", c.announced),
+                            "parse_mt data differs from typed JSON".to_string(),
+                        ));
                     }
-                    if meta.get("message_type").and_then(|v| v.as_str()) != Some(c.announced.as_str()) {
-                        out.push(viol(format!("C12|plugin-parse|MT{}|wrong-type", c.announced), format!("metadata {}", meta)));
+                    if meta.get("message_type").and_then(|v| v.as_str())
+                        != Some(c.announced.as_str())
+                    {
+                        out.push(viol(
+                            format!("C12|plugin-parse|MT{}|wrong-type", c.announced),
+                            format!("metadata {}", meta),
+                        ));
                     }
                 }
                 Err(e) => {
                     if !e.is_panic() {
-                        out.push(viol(format!("C12|plugin-parse|MT{}|rejected", c.announced), format!("parse_mt rejects what parse::<T> accepts: {}", e.text())));
+                        out.push(viol(
+                            format!("C12|plugin-parse|MT{}|rejected", c.announced),
+                            format!("parse_mt rejects what parse::<T> accepts: {}", e.text()),
+                        ));
                     }
                 }
             }
             match plugin_validate(&x) {
                 Ok(v) => {
-                    if v.get("message_type").and_then(|x| x.as_str()) != Some(c.announced.as_str()) {
-                        out.push(viol(format!("C12|plugin-validate|MT{}|wrong-type", c.announced), format!("validate_mt result {}", v)));
+                    if v.get("message_type").and_then(|x| x.as_str()) != Some(c.announced.as_str())
+                    {
+                        out.push(viol(
+                            format!("C12|plugin-validate|MT{}|wrong-type", c.announced),
+                            format!("validate_mt result {}", v),
+                        ));
                     }
-                    if v.get("valid").and_then(|x| x.as_bool()) != Some(t.body.errs_all.is_empty()) {
-                        out.push(viol(format!("C12|plugin-validate|MT{}|verdict-differs", c.announced), format!("validate_mt {} vs typed errors {:?}", v, t.body.errs_all.iter().map(|e| e.code.clone()).collect::<Vec<_>>())));
+                    if v.get("valid").and_then(|x| x.as_bool()) != Some(t.body.errs_all.is_empty())
+                    {
+                        out.push(viol(
+                            format!("C12|plugin-validate|MT{}|verdict-differs", c.announced),
+                            format!(
+                                "validate_mt {} vs typed errors {:?}",
+                                v,
+                                t.body
+                                    .errs_all
+                                    .iter()
+                                    .map(|e| e.code.clone())
+                                    .collect::<Vec<_>>()
+                            ),
+                        ));
                     }
                 }
                 Err(e) => {
                     if !e.is_panic() {
-                        out.push(viol(format!("C12|plugin-validate|MT{}|failed", c.announced), e.text()));
+                        out.push(viol(
+                            format!("C12|plugin-validate|MT{}|failed", c.announced),
+                            e.text(),
+                        ));
                     }
                 }
             }
             match plugin_publish(&t.json) {
                 Ok(txt) => {
                     if txt != t.mt_message {
-                        out.push(viol(format!("C12|plugin-publish|MT{}|differs", c.announced), format!("publish_mt:\n{}\nto_mt_message:\n{}", txt, t.mt_message)));
+                        out.push(viol(
+                            format!("C12|plugin-publish|MT{}|differs", c.announced),
+                            format!("publish_mt:\n{}\nto_mt_message:\n{}", txt, t.mt_message),
+                        ));
                     }
                 }
                 Err(e) => {
                     if !e.is_panic() {
-                        out.push(viol(format!("C12|plugin-publish|MT{}|rejected", c.announced), e.text()));
+                        out.push(viol(
+                            format!("C12|plugin-publish|MT{}|rejected", c.announced),
+                            e.text(),
+                        ));
                     }
                 }
             }
@@ -160,17 +275,30 @@ pub fn oracle(c: &DispCase, obs: &mut Obs) -> Vec<Violation> {
         }
         (Ok(a), Err(e)) => {
             if !e.is_panic() {
-                out.push(viol(format!("C12|auto|MT{}|accepted-typed-rejected", c.announced), format!("parse_auto gives {} but parse::<T> fails: {}", a.message_type, e.text())));
+                out.push(viol(
+                    format!("C12|auto|MT{}|accepted-typed-rejected", c.announced),
+                    format!(
+                        "parse_auto gives {} but parse::<T> fails: {}",
+                        a.message_type,
+                        e.text()
+                    ),
+                ));
             }
         }
         (Err(e), Ok(_)) => {
             if !e.is_panic() {
-                out.push(viol(format!("C12|auto|MT{}|rejected-typed-accepted", c.announced), format!("parse::<T> accepts but parse_auto fails: {}", e.text())));
+                out.push(viol(
+                    format!("C12|auto|MT{}|rejected-typed-accepted", c.announced),
+                    format!("parse::<T> accepts but parse_auto fails: {}", e.text()),
+                ));
             }
         }
         (Err(_), Err(e)) => {
             if c.announced == c.body_mt && !e.is_panic() {
-                out.push(viol(format!("C12|typed|MT{}|rejected", c.announced), format!("valid message rejected: {}\n{}", e.text(), x)));
+                out.push(viol(
+                    format!("C12|typed|MT{}|rejected", c.announced),
+                    format!("valid message rejected: {}\n{}", e.text(), x),
+                ));
             }
         }
     }
@@ -195,13 +323,24 @@ pub fn run(ctx: &Ctx) {
                     None => continue,
                 };
                 for u in MSGS {
-                    v.push(DispCase { body_mt: mt.to_string(), announced: mt.to_string(), requested: u.mt.to_string(), body: b.clone() });
+                    v.push(DispCase {
+                        body_mt: mt.to_string(),
+                        announced: mt.to_string(),
+                        requested: u.mt.to_string(),
+                        body: b.clone(),
+                    });
                 }
                 for code in 0..1000 {
-                    if j > 0 && code % 7 != (j as usize) % 7 && !supported(&format!("{:03}", code)) {
+                    if j > 0 && code % 7 != (j as usize) % 7 && !supported(&format!("{:03}", code))
+                    {
                         continue;
                     }
-                    v.push(DispCase { body_mt: mt.to_string(), announced: format!("{:03}", code), requested: String::new(), body: b.clone() });
+                    v.push(DispCase {
+                        body_mt: mt.to_string(),
+                        announced: format!("{:03}", code),
+                        requested: String::new(),
+                        body: b.clone(),
+                    });
                 }
             }
             v
